@@ -59,6 +59,7 @@ type orderFlow struct {
 	doneIter      map[*ssa.BasicBlock]bool
 	fieldTaintFns map[*types.Var][]*ssa.Function
 	nIter, nSorts int
+	sanDepth      int
 }
 
 func (of *orderFlow) taint(v ssa.Value, why string) {
@@ -1064,7 +1065,6 @@ func (of *orderFlow) sanitisedByProcess(it *iteration) string {
 // journal j, and a j.Process(...) call whose stages leave that field totally
 // sorted dominates the instruction `at` in fn.
 func (of *orderFlow) loadSanitisedByProcess(v ssa.Value, fn *ssa.Function, at ssa.Instruction) string {
-	p := of.oa.p
 	ld, ok := v.(*ssa.UnOp)
 	if !ok {
 		return ""
@@ -1073,7 +1073,16 @@ func (of *orderFlow) loadSanitisedByProcess(v ssa.Value, fn *ssa.Function, at ss
 	if !ok {
 		return ""
 	}
-	fv := core.FieldOf(fa)
+	return of.daySanitisedAt(fa.X, core.FieldOf(fa), fn, at)
+}
+
+// daySanitisedAt: day is a *Day of journal j, and a j.Process(...) call whose
+// stages leave the per-kind field fv of the days totally sorted dominates the
+// instruction `at` in fn (or, when the day is a parameter of fn, dominates
+// every call of fn).
+func (of *orderFlow) daySanitisedAt(day ssa.Value, fv *types.Var, fn *ssa.Function, at ssa.Instruction) string {
+	p := of.oa.p
+	fa := struct{ X ssa.Value }{day}
 	if _, tainted := of.fields[fv]; !tainted {
 		return ""
 	}
@@ -1084,16 +1093,50 @@ func (of *orderFlow) loadSanitisedByProcess(v ssa.Value, fn *ssa.Function, at ss
 	}
 	// the journal the day comes from
 	var journal ssa.Value
+	var dayParam *ssa.Parameter
 	w := &core.Walker{P: p, Visit: func(v ssa.Value) bool {
 		if f, ok := v.(*ssa.FieldAddr); ok && core.FieldOf(f) == daysField {
 			journal = f.X
 			return false
 		}
+		if prm, ok := v.(*ssa.Parameter); ok && prm.Parent() == fn {
+			dayParam = prm
+		}
 		return journal == nil
 	}}
 	w.Origin(fa.X)
 	if journal == nil {
-		return ""
+		// the day is a parameter: every caller must hand over a day of a journal whose
+		// Process call (with the sorting stage) dominates the call
+		if dayParam == nil || of.sanDepth > 2 {
+			return ""
+		}
+		idx := -1
+		for i, q := range fn.Params {
+			if q == dayParam {
+				idx = i
+			}
+		}
+		sites := of.callersOf(fn)
+		if idx < 0 || len(sites) == 0 {
+			return ""
+		}
+		res := ""
+		of.sanDepth++
+		defer func() { of.sanDepth-- }()
+		for _, site := range sites {
+			args := site.Common().Args
+			if idx >= len(args) {
+				return ""
+			}
+			// a pseudo load of the same field on the caller's day value
+			why := of.daySanitisedAt(args[idx], fv, site.Parent(), site)
+			if why == "" {
+				return ""
+			}
+			res = why
+		}
+		return res
 	}
 	sorters := of.sortersOf(fv)
 	result := ""
